@@ -20,6 +20,7 @@ class H:
         self.assumptions = assumptions or []
         self.group = group
         self.solver = solver
+        self.slice = None             # cargo feature list (no default features) or None = default features
         self.path = None              # fully qualified kani harness name, filled in by the driver
         self.pkg = None
 
@@ -35,3 +36,13 @@ def render(h, stub_path):
         attrs.append("#[kani::solver(%s)]" % h.solver)
     attrs.append("#[kani::stub(::std::fmt::format, %s)]" % stub_path)
     return "\n".join(attrs) + "\npub fn %s() {\n%s\n}\n" % (h.name, h.text)
+
+
+def module_text(prop, harnesses, prelude="", extra=""):
+    """the generated module that a hook file holds: private items of the hooked module are visible through `use super::*`"""
+    body = prelude
+    for h in harnesses:
+        body += render(h, "verif_stub_format") + "\n"
+    return ("#[allow(warnings)]\npub mod verif_%s {\n  use super::*;\n  use std::mem::forget;\n"
+            "  pub fn verif_stub_format(_a: std::fmt::Arguments<'_>) -> String { String::new() }\n%s\n%s\n}\n"
+            % (prop.lower(), body, extra))
